@@ -50,10 +50,14 @@ K_lf == L(<<"k">>, <<"l", "f">>)
 K_lua == L(<<"k">>, <<"l", "..", "a">>)           \* ".." after a link
 DL_ua == L(<<"d", "l">>, <<"..", "a">>)           \* d/l -> ../a   (stays inside)
 
+PZ   == F(<<"p.zip">>, "plain")                   \* a member NAMED like an archive that is not one
+OZ   == D(<<"o.zip">>)                            \* a directory member named like an archive
+OZA  == F(<<"o.zip", "a">>, "plain")
+L_oz == L(<<"l">>, <<"o.zip">>)
 D_la == L(<<"d", "l">>, <<"a">>)                  \* d/l -> a     (relative to its own directory)
-UFullQ == {A, Dd, DA, D_ef, HID, ABS, GMAP, LNK, EXE, MBX, PYG, L_a, L_d, L_Aa, L_ua, L_m, M_l, M_a, L_x, L_uu, K_la, DL_ua, D_la}
+UFullQ == {A, Dd, DA, D_ef, HID, ABS, GMAP, LNK, EXE, MBX, PYG, L_a, L_d, L_Aa, L_ua, L_m, M_l, M_a, L_x, L_uu, K_la, DL_ua, D_la, PZ, OZ, OZA}
 UCoreQ == {A, Dd, DA, L_a, L_d, L_Aa, L_ua, L_m, M_l, M_a, L_x, K_la, DL_ua, GMAP}
-UCoreT == {A, DA, D_ef, L_a, L_d, L_de, L_m, M_l, M_a, L_x, K_la, K_lf, K_lua, DL_ua, D_la}
+UCoreT == {A, DA, D_ef, L_a, L_d, L_de, L_m, M_l, M_a, L_x, K_la, K_lf, K_lua, DL_ua, D_la, OZA}
 UCoreT5 == {A, DA, D_ef, L_d, L_de, L_m, M_l, M_a, K_la, K_lf}
 
 \* a tree expressible on disk: one member per name, no file or link used as a directory
